@@ -76,8 +76,9 @@ REQUEST_COROS = {"_request_pause_coro", "_abort_coro", "_stop_coro", "_halt_coro
 
 class Scenario:
     def __init__(self, I, plan_msgs, env=(), post_pause=("resume", "abort", "stop", "halt"), max_requests=None, handles=True,
-                 can_raise=True, engine_kw=None, max_inflight=1, max_depth=2, second_call=None, max_runs=2, suspend_plans=False, re_attrs=None):
+                 can_raise=True, engine_kw=None, max_inflight=1, max_depth=2, second_call=None, max_runs=2, suspend_plans=False, re_attrs=None, pretripped=None):
         self.max_depth = max_depth
+        self.pretripped = pretripped
         self.re_attrs = dict(re_attrs or {})
         self.suspend_plans = suspend_plans
         self.pre_plans, self.post_plans = [], []
@@ -103,6 +104,16 @@ class Scenario:
         eng.ghost["key"] = self.ghost_key = {}
         self.loop.env_menu = self.env_menu
         LEDGER["event"] = eng.event
+        if pretripped is not None:
+            # an installed suspender (abstract: what SuspenderBase.get_futures is proved to return) that is / is not tripped when the plan starts
+            if pretripped:
+                self.release = aio.AEvent(self.loop, "release")
+            rel = self.release
+
+            def get_futures(I_, o, a, k):
+                return ([I_.getattr(rel.facade, "wait")], "tripped before the plan started") if pretripped else ([], "")
+            sus = Opaque("suspender", {"token": "suspender", "truth": True, "isinstance_default": False, "methods": {"get_futures": get_futures}})
+            I.getattr(self.re, "_suspenders").add(sus)
         self.loop.on_outcome_lost = lambda task, tok: eng.event("outcome-lost", getattr(getattr(task, "woken_by", None), "msg", None), tok)
 
         def custom(I_, a, k):
